@@ -98,6 +98,8 @@ def import_from(SRC, rnd):
                      "rebased": os.path.exists(os.path.join(out, "patch.as-delivered.diff")),
                      "history": STRENGTHENED.get("%s-%s" % (pid, name), old.get("history") or "caught as built"),
                      "detection": old.get("detection", {})}
+                if old.get("retired"):
+                    m["retired"] = old["retired"]
                 json.dump(m, open(os.path.join(out, "meta.json"), "w"), indent=1)
 
 
@@ -110,6 +112,9 @@ def matrix():
             continue
         meta = json.load(open(os.path.join(sd, "meta.json")))
         pid = meta["property"]
+        if meta.get("retired"):
+            rows.append((d, meta.get("round", 1), "retired", "made behaviour-preserving by a later fix: see meta.json", ""))
+            continue
         only = [a for a in sys.argv[1:] if not a.startswith("--")]
         if only and not any(d.startswith(o) for o in only):
             det = meta.get("detection", {})
